@@ -181,9 +181,8 @@ int main(void)
       int both = (S->io_spec.itype & S->io_spec.otype & SOXR_SPLIT) != 0;
       fn_failed = 0;
       if (S->flushing) inNull = 1;   /* no input after end-of-input (caller contract): only further flush requests */
-      /* guard: with no resamplers built the call dereferences NULL (unless it returns before touching them) */
-      if (!(inNull && outNull) && ((!S->resamplers && (both || !S->error)) || (both && outNull) ||
-          (!both && !S->error && outNull && !olen && (S->io_spec.otype & SOXR_SPLIT))))
+      /* guard: with no resamplers built the call dereferences NULL (unless it returns before touching them: both buffers NULL, or an error recorded) */
+      if (!(inNull && outNull) && !S->error && (!S->resamplers || (both && outNull) || (outNull && !olen && (S->io_spec.otype & SOXR_SPLIT))))
         printf("> process %d %d %zu quiet\n< X misuse\n", inNull, outNull, olen);
       else {
         void * * ia, * * oa; void * in = inNull? 0 : mkbuf(itype, ilen, &ia), * out = outNull? 0 : mkbuf(otype, olen, &oa);
@@ -212,8 +211,7 @@ int main(void)
     else if (!strcmp(t[0], "clear")) { printf("> clear\n"); print_err("S", soxr_clear(S)); }
     else if (!strcmp(t[0], "error")) { printf("> error\n"); print_err("S", soxr_error(S)); }
     else if (!strcmp(t[0], "engine")) {
-      printf("> engine\n");
-      if (!S->control_block[9]) printf("< X nullcall\n"); else printf("< N %s\n", soxr_engine(S));
+      printf("> engine\n< N %s\n", soxr_engine(S));
     }
     else printf("> %s\n< bad-op\n", t[0]);
   }
